@@ -226,6 +226,7 @@ func (p *parser) parseFunc() Node {
 	}
 	p.assertEnd()
 	p.advance()
+	p.assertEOL()
 	p.recordComment(block)
 	p.advancePastNL()
 	fd.Body = block
@@ -282,6 +283,7 @@ func (p *parser) parseEventHandler() Node {
 	e.Body = p.parseBlock()
 	p.assertEnd()
 	p.advance()
+	p.assertEOL()
 	p.recordComment(e.Body)
 	p.advancePastNL()
 	return e
@@ -887,6 +889,7 @@ func (p *parser) parseForStatement() Node {
 	forNode.Block = p.parseBlock()
 	p.assertEnd()
 	p.advance()
+	p.assertEOL()
 	p.recordComment(forNode.Block)
 	p.advancePastNL()
 	return forNode
@@ -932,6 +935,7 @@ func (p *parser) parseWhileStatement() Node {
 	p.recordCommentString(&while.ConditionalBlock, comment)
 	p.assertEnd()
 	p.advance()
+	p.assertEOL()
 	p.recordComment(while.ConditionalBlock.Block)
 	p.advancePastNL()
 	return while
@@ -974,6 +978,7 @@ func (p *parser) parseIfStatement() Node {
 	}
 	p.assertEnd()
 	p.advance()
+	p.assertEOL()
 	p.recordComment(ifStmt)
 	p.advancePastNL()
 	return ifStmt
